@@ -370,8 +370,12 @@ def ev_realmp(case):
     fails = []
     parent = script_parent(kind, N, script, seed, True)
     out, done, excs = run_serial_schedule(parent, seed=seed)
+    for e in excs.values():
+        if isinstance(e, HarnessError):
+            raise e
     if excs or not done:
-        raise HarnessError(f"fake run failed {excs}")
+        return {"fails": [fail("protocol/script-raises-or-blocks", "; ".join(f"{k}: {type(e).__name__}: {e}" for k, e in excs.items())[:500] or "a process is blocked for ever", config=case)],
+                "n": 1, "states": 1, "transitions": 1}
     with lib("real-multiprocessing-run"):
         ro, alive = real_run(kind, N, script, seed)
     if ro != out["outcome"]:
